@@ -462,7 +462,12 @@ pub fn build(m: &Model) -> Vec<u8> {
                     sec = if w == 4 { sec.D32(next as u32).D32(ra as u32) } else { sec.D64(next).D64(ra) };
                 }
                 sec = sec.append_repeated(0, 4 * w as usize);
-                (synth::Memory::with_section(sec, base), context_with_fp(m.cpu, t.ip, base, base))
+                // CPUs without a frame-pointer context here (32-bit ARM, ...): the same words are found by scanning
+                let ctx = match m.cpu {
+                    CpuK::X86 | CpuK::Amd64 | CpuK::Arm64 => context_with_fp(m.cpu, t.ip, base, base),
+                    _ => m.cpu.context(t.ip, base).expect("procgen: deep stacks need a CPU with a context"),
+                };
+                (synth::Memory::with_section(sec, base), ctx)
             }
             _ => (synth::Memory::with_section(Section::with_endian(e).append_repeated(0, 64), base), if t.ctx_ok { m.cpu.context(t.ip, t.sp) } else { None }.unwrap_or_else(|| vec![0xCD; 24])),
         };
